@@ -45,7 +45,29 @@ Record pod := mkPod {
   p_req : res;                  (* GetPodResourceRequest(pod) *)
 }.
 
-Record nodeobj := mkNodeObj { no_id : positive; no_alloc : res (* NewResource(status.allocatable) *) }.
+(* the node as NodeInfo sees it after setOversubscription: id and Allocatable =
+   NewResource(status.allocatable) + OversubscriptionResource *)
+Record nodeobj := mkNodeObj { no_id : positive; no_alloc : res }.
+
+(* a delivered version of a Node object: what the cache reads of it *)
+Record nodever := mkNodeVer {
+  nv_id : positive;
+  nv_base : res;                (* NewResource(status.allocatable) *)
+  nv_over_cpu : option Z;       (* annotation volcano.sh/oversubscription-cpu, if present *)
+  nv_over_mem : option Z;       (* annotation volcano.sh/oversubscription-memory, if present *)
+  nv_over_node : bool;          (* label volcano.sh/oversubscription parses to true *)
+  nv_offline : bool;            (* annotation volcano.sh/offline-job-evicting parses to true *)
+  nv_zone : Z;                  (* label volcano.sh/revocable-zone (0 = absent) *)
+}.
+
+(* what a NodeInfo remembers of the node object besides the ledger *)
+Record nattr := mkNAttr {
+  na_over_cpu : Z; na_over_mem : Z;     (* OversubscriptionResource *)
+  na_over_node : bool; na_offline : bool; na_zone : Z;
+  na_obj_alloc : res;                   (* Allocatable as NewNodeInfo(ni.Node) computes it (what Clone uses) *)
+}.
+Definition no_attr : nattr := mkNAttr 0 0 false false 0 empty_res.
+Definition over_res (a : nattr) : res := mkRes (na_over_cpu a) (na_over_mem a) None.
 
 Record pgobj := mkPG {
   g_id : positive;      (* the job id "namespace/name" *)
@@ -95,23 +117,26 @@ Record cache := mkCache {
   c_queues : gset positive;
   c_errq : list (positive * positive);   (* errTasks keys (job, task), FIFO without duplicates *)
   c_delq : list (positive * Z);          (* DeletedJobs keys (job, PgUID) *)
+  c_nattr : gmap positive nattr;         (* per NodeInfo that has seen a node object *)
 }.
 
-Definition empty_cache : cache := mkCache ∅ ∅ ∅ ∅ ∅ [] ∅ [] [].
+Definition empty_cache : cache := mkCache ∅ ∅ ∅ ∅ ∅ [] ∅ [] [] ∅.
 
 Definition with_store (c : cache) (s : gmap positive pod) (g : gset positive) : cache :=
-  mkCache s g (c_heap c) (c_jobs c) (c_nodes c) (c_nodelist c) (c_queues c) (c_errq c) (c_delq c).
+  mkCache s g (c_heap c) (c_jobs c) (c_nodes c) (c_nodelist c) (c_queues c) (c_errq c) (c_delq c) (c_nattr c).
 Definition with_hjn (c : cache) (h : gmap positive task) (j : gmap positive cjob) (n : gmap positive node) : cache :=
-  mkCache (c_store c) (c_gone c) h j n (c_nodelist c) (c_queues c) (c_errq c) (c_delq c).
+  mkCache (c_store c) (c_gone c) h j n (c_nodelist c) (c_queues c) (c_errq c) (c_delq c) (c_nattr c).
 Definition with_jobs (c : cache) (j : gmap positive cjob) : cache := with_hjn c (c_heap c) j (c_nodes c).
 Definition with_nodes (c : cache) (n : gmap positive node) (l : list positive) : cache :=
-  mkCache (c_store c) (c_gone c) (c_heap c) (c_jobs c) n l (c_queues c) (c_errq c) (c_delq c).
+  mkCache (c_store c) (c_gone c) (c_heap c) (c_jobs c) n l (c_queues c) (c_errq c) (c_delq c) (c_nattr c).
 Definition with_queues (c : cache) (q : gset positive) : cache :=
-  mkCache (c_store c) (c_gone c) (c_heap c) (c_jobs c) (c_nodes c) (c_nodelist c) q (c_errq c) (c_delq c).
+  mkCache (c_store c) (c_gone c) (c_heap c) (c_jobs c) (c_nodes c) (c_nodelist c) q (c_errq c) (c_delq c) (c_nattr c).
 Definition with_errq (c : cache) (q : list (positive * positive)) : cache :=
-  mkCache (c_store c) (c_gone c) (c_heap c) (c_jobs c) (c_nodes c) (c_nodelist c) (c_queues c) q (c_delq c).
+  mkCache (c_store c) (c_gone c) (c_heap c) (c_jobs c) (c_nodes c) (c_nodelist c) (c_queues c) q (c_delq c) (c_nattr c).
+Definition with_nattr (c : cache) (a : gmap positive nattr) : cache :=
+  mkCache (c_store c) (c_gone c) (c_heap c) (c_jobs c) (c_nodes c) (c_nodelist c) (c_queues c) (c_errq c) (c_delq c) a.
 Definition with_delq (c : cache) (q : list (positive * Z)) : cache :=
-  mkCache (c_store c) (c_gone c) (c_heap c) (c_jobs c) (c_nodes c) (c_nodelist c) (c_queues c) (c_errq c) q.
+  mkCache (c_store c) (c_gone c) (c_heap c) (c_jobs c) (c_nodes c) (c_nodelist c) (c_queues c) (c_errq c) q (c_nattr c).
 
 (* workqueue.Add: no duplicate of a waiting key *)
 Definition enq {A} `{EqDecision A} (q : list A) (k : A) : list A :=
@@ -278,6 +303,22 @@ Definition add_or_update_node (c : cache) (o : nodeobj) : cache :=
   with_nodes c (<[nid := ni]> (c_nodes c))
              (if bool_decide (nid ∈ c_nodelist c) then c_nodelist c else c_nodelist c ++ [nid]).
 
+(* AddOrUpdateNode(node): setOversubscription keeps the previous amount of an
+   annotation that is no longer there (OversubscriptionResource is only ever
+   overwritten), the flags are recomputed from the delivered version *)
+(* Allocatable of a NodeInfo built from this version alone *)
+Definition obj_alloc (v : nodever) : res :=
+  add (nv_base v) (mkRes (default 0 (nv_over_cpu v)) (default 0 (nv_over_mem v)) None).
+
+Definition node_attr (c : cache) (v : nodever) : nattr :=
+  let old := default no_attr (c_nattr c !! nv_id v) in
+  mkNAttr (default (na_over_cpu old) (nv_over_cpu v)) (default (na_over_mem old) (nv_over_mem v))
+          (nv_over_node v) (nv_offline v) (nv_zone v) (obj_alloc v).
+Definition eff_obj (c : cache) (v : nodever) : nodeobj :=
+  mkNodeObj (nv_id v) (add (nv_base v) (over_res (node_attr c v))).
+Definition node_event (c : cache) (v : nodever) : cache :=
+  with_nattr (add_or_update_node c (eff_obj c v)) (<[nv_id v := node_attr c v]> (c_nattr c)).
+
 Fixpoint remove_first (x : positive) (l : list positive) : list positive :=
   match l with
   | [] => []
@@ -289,7 +330,7 @@ Definition keep_tasks (ni : node) : node :=
   mkNode (n_id ni) false empty_res empty_res empty_res empty_res empty_res (n_tasks ni).
 
 (* RemoveNode (after fix e29cb66) *)
-Definition remove_node (c : cache) (nid : positive) : cache :=
+Definition remove_node_ledger (c : cache) (nid : positive) : cache :=
   let l := remove_first nid (c_nodelist c) in
   match c_nodes c !! nid with
   | None => with_nodes c (c_nodes c) l
@@ -298,9 +339,13 @@ Definition remove_node (c : cache) (nid : positive) : cache :=
     else with_nodes c (<[nid := keep_tasks ni]> (c_nodes c)) l
   end.
 
+(* the NodeInfo object goes away (deleted or replaced by a placeholder): so does what it remembered *)
+Definition remove_node (c : cache) (nid : positive) : cache :=
+  let c1 := remove_node_ledger c nid in with_nattr c1 (delete nid (c_nattr c1)).
+
 (* RemoveNode as it was before the fix: the NodeInfo is dropped with its tasks *)
 Definition remove_node_prefix (c : cache) (nid : positive) : cache :=
-  with_nodes c (delete nid (c_nodes c)) (remove_first nid (c_nodelist c)).
+  with_nattr (with_nodes c (delete nid (c_nodes c)) (remove_first nid (c_nodelist c))) (delete nid (c_nattr c)).
 
 (* ---------- PodGroups, queues ---------- *)
 
@@ -436,10 +481,12 @@ Definition evict_task (c : cache) (jid tid : positive) (evict_ok : bool) : cache
 (* ---------- Snapshot ---------- *)
 
 (* NodeInfo.Clone: NewNodeInfo(ni.Node), then AddTask for every task (errors ignored) *)
-Definition clone_node (ni : node) : node :=
+Definition clone_node (alloc : res) (ni : node) : node :=
   fold_left (fun acc t => match node_add eps acc t with inl (acc', _) => acc' | inr _ => acc end)
             (map snd (map_to_list (n_tasks ni)))
-            (mkNode (n_id ni) true (n_alloc ni) empty_res empty_res empty_res (n_alloc ni) ∅).
+            (mkNode (n_id ni) true alloc empty_res empty_res empty_res alloc ∅).
+Definition clone_alloc (c : cache) (n : positive) (ni : node) : res :=
+  match c_nattr c !! n with Some a => na_obj_alloc a | None => n_alloc ni end.
 
 (* JobInfo.Clone: a fresh JobInfo with the same attributes, AddTaskInfo(task.Clone()) for every task *)
 Definition clone_job (heap : gmap positive task) (j : job) : job :=
@@ -463,7 +510,7 @@ Definition take_snapshot (c : cache) : snapshot :=
   let js := filter (fun kv => in_snapshot c (snd kv) = true) (c_jobs c) in
   mkSnap (filter (fun kv => bool_decide (map_Exists (fun _ cj => fst kv ∈ j_tasks (cj_job cj)) js)) (c_heap c))
          ((fun cj => upd_job cj (clone_job (c_heap c) (cj_job cj))) <$> js)
-         (clone_node <$> filter (fun kv => n_has_node (snd kv) = true) (c_nodes c))
+         (map_imap (fun n ni => if n_has_node ni then Some (clone_node (clone_alloc c n ni) ni) else None) (c_nodes c))
          (c_nodelist c) (c_queues c).
 
 (* a Binding task is re-checked against Idle when the node is cloned; when the
@@ -478,7 +525,7 @@ Definition clone_hazard (ni : node) : bool :=
 Inductive event :=
 | EPod (p : pod)              (* informer delivers a pod version: AddPod, or UpdatePod(old, new) *)
 | EPodDel (id : positive)     (* DeletePod(last delivered version) *)
-| ENode (o : nodeobj)         (* AddOrUpdateNode *)
+| ENode (v : nodever)         (* AddOrUpdateNode *)
 | ENodeDel (id : positive)    (* RemoveNode *)
 | EPG (g : pgobj)             (* AddPodGroup / UpdatePodGroup *)
 | EPGDel (id : positive)      (* DeletePodGroup *)
@@ -503,7 +550,7 @@ Definition handle_with (rm : cache -> positive -> cache) (c : cache) (e : event)
     | None => c
     | Some old => let c1 := delete_pod c old in with_store c1 (delete id (c_store c1)) (c_gone c1 ∖ {[id]})
     end
-  | ENode o => add_or_update_node c o
+  | ENode v => node_event c v
   | ENodeDel id => rm c id
   | EPG g => set_pod_group c g
   | EPGDel id => delete_pod_group c id
@@ -526,7 +573,7 @@ Definition run_prefix (c : cache) (h : list event) : cache := fold_left handle_p
 
 Record objs := mkObjs {
   o_pods : gmap positive pod;
-  o_nodes : gmap positive nodeobj;
+  o_nodes : gmap positive nodever;
   o_pgs : gmap positive pgobj;
   o_queues : gset positive;
 }.
@@ -536,7 +583,7 @@ Definition apply_event (o : objs) (e : event) : objs :=
   match e with
   | EPod p => mkObjs (<[p_id p := p]> (o_pods o)) (o_nodes o) (o_pgs o) (o_queues o)
   | EPodDel id => mkObjs (delete id (o_pods o)) (o_nodes o) (o_pgs o) (o_queues o)
-  | ENode n => mkObjs (o_pods o) (<[no_id n := n]> (o_nodes o)) (o_pgs o) (o_queues o)
+  | ENode n => mkObjs (o_pods o) (<[nv_id n := n]> (o_nodes o)) (o_pgs o) (o_queues o)
   | ENodeDel id => mkObjs (o_pods o) (delete id (o_nodes o)) (o_pgs o) (o_queues o)
   | EPG g => mkObjs (o_pods o) (o_nodes o) (<[g_id g := g]> (o_pgs o)) (o_queues o)
   | EPGDel id => mkObjs (o_pods o) (o_nodes o) (delete id (o_pgs o)) (o_queues o)
